@@ -93,7 +93,8 @@ class USBControlEndpoint(Elaboratable):
         tokenizer = self.interface.tokenizer
 
         # If we receive a SETUP token, always move back to the SETUP stage.
-        with m.If(tokenizer.new_token & tokenizer.is_setup):
+        # (SETUP tokens for other endpoints aren't ours; they must not abandon our transfer.)
+        with m.If(tokenizer.new_token & tokenizer.is_setup & (tokenizer.endpoint == self._endpoint_number)):
             m.next = 'SETUP'
 
 
